@@ -572,6 +572,40 @@ Proof. decide equality; auto using N.eq_dec, rres_eq_dec, (list_eq_dec event_eq_
 Definition baccept (c : config) (interval : N) (targets : list (N * N)) (o : bobs) : bool :=
   existsb (fun m => if bobs_eq_dec o m then true else false) (btimed_runs c interval targets).
 
+(* Membership in [btimed_runs] decided by a search that is guided by the observed trace: only
+   branches whose trace so far is a prefix of the observed one are followed (plain enumeration
+   is factorial in the number of fibers that are ready at one instant).
+   Proofs: bsearch_sound / bsearch_complete  =>  baccept_guided = baccept. *)
+Fixpoint is_prefix_ev (a b : list event) : bool :=
+  match a, b with
+  | [], _ => true
+  | x :: a', y :: b' => (if event_eq_dec x y then true else false) && is_prefix_ev a' b'
+  | _ :: _, [] => false
+  end.
+
+Fixpoint bsearch (fuel : nat) (interval : N) (targets : list (N * N)) (t : btstate) (o : bobs) : bool :=
+  match returned (core (bb t)) with
+  | Some r => if bobs_eq_dec o (mkBObs (rev (btrace t)) r (bnow t)) then true else false
+  | None =>
+      match fuel with
+      | O => false
+      | S fuel' =>
+          match list_min (bevent_times t) with
+          | None => false
+          | Some tn =>
+              existsb (fun l => match btstep interval targets t l tn with
+                                | Some t' =>
+                                    is_prefix_ev (rev (btrace t')) (bo_events o)
+                                    && bsearch fuel' interval targets t' o
+                                | None => false
+                                end) (bready t tn)
+          end
+      end
+  end.
+
+Definition baccept_guided (c : config) (interval : N) (targets : list (N * N)) (o : bobs) : bool :=
+  bsearch (bfuel c targets) interval targets (btinit c interval targets) o.
+
 (* The property on an observed trace, from the property text:
    - no plan target is used twice: the attempts begin on the plan's targets, in plan order;
    - never more attempts in flight than allowed: 1 if the gate is closed (not idempotent, or no
